@@ -5,6 +5,16 @@ import os
 V = os.path.dirname(os.path.dirname(os.path.abspath(__file__)))
 
 CHECKS = {
+    "C01": dict(
+        technique="TLC GramGen sentence enumeration over the pinned grammar -> real parser vs CPython; recorded tree pairs trace-validated by TLC against AstEq.tla",
+        text="Bounded model checking of the program space + trace validation: TLC derives every sentence of each grammar layer (27 GramGen configurations over the pinned reference grammar, lookaheads ignored) up to a token bound; each is written in several spellings/layouts, CPython decides validity, and for every valid program (plus corpus: test data, harvested test inputs, stdlib statements, x layouts) the pair of flattened trees (implementation, CPython) is validated row by row by TLC against AstEq.tla (structure, field values, spans).",
+        note="Trusted: CPython 3.12.1 ast.parse (the oracle the property names); concretiser spellings; 24-bit per-aspect row digests. Bounded by sentence length per layer; deeper programs only via macro-terminal expansion and the corpus.",
+        ref="5/C01"),
+    "C02": dict(
+        technique="TLC enumeration of token strings / grammar sentences / single-token edits -> accept-or-raise of real parser vs CPython; verdict pairs trace-validated by TLC (AstEq.tla)",
+        text="Bounded model checking of the complement language: inputs built from Python tokens only -- every token string up to a bound (AllTok), GramGen sentences of the pinned and of the WORKING-TREE grammar with all xonsh-only terminals banned (so a widened alternative yields new sentences), every single-token edit/prefix (EditGen over tokens) of valid sentences and stdlib statements, the tabs/spaces indentation family; CPython rejects => the implementation must raise. TLC validates each recorded verdict pair.",
+        note="Trusted: CPython as oracle; lexicon membership holds by construction. Over-acceptance that needs more specific tokens than the bounds / edit neighbourhood is not reached.",
+        ref="5/C02"),
     "C03": dict(
         technique="TLC-enumerated input space (CharGen/EditGen) replayed into the real code; recorded outcomes trace-validated by TLC against Total.tla",
         text="Bounded model checking of the input space + trace validation: TLC enumerates every abstract string over each sub-alphabet up to a length bound, random soup, and every proper prefix / single-character edit of the seed programs; each input runs through generate_tokens, parse_string (exec, eval) and parse_file under a watchdog and TLC validates the recorded outcome trace (terminates; outcome class in {tree, SyntaxError*, TokenError}; never None).",
